@@ -97,3 +97,10 @@ func write(v reflect.Value, b *strings.Builder, depth int) {
 		fmt.Fprintf(b, "?%s", v.Kind())
 	}
 }
+
+// OfValue renders a reflect.Value (which may have been reached through unexported fields).
+func OfValue(v reflect.Value) string {
+	var b strings.Builder
+	write(v, &b, 0)
+	return b.String()
+}
